@@ -77,34 +77,35 @@ CONSTANTS
   SplitPw <- RunSplitPw
   InitActive <- RunInit
   Paired = %(paired)s
+  WithBad = %(withbad)s
   Fixed = %(fixed)s
 %(more)s
 CHECK_DEADLOCK FALSE
 """
 
 
-def cfg_text(spec, names, nv, nsc, paired, fixed, more):
-    return CFG % {"spec": spec, "ns": tla_set(tla_str(n) for n in names), "nv": nv,
+def cfg_text(spec, names, nv, nsc, paired, fixed, more, with_bad=False):
+    return CFG % {"spec": spec, "ns": tla_set(tla_str(n) for n in names), "nv": nv, "withbad": "TRUE" if with_bad else "FALSE",
                   "scs": tla_set(str(i) for i in range(1, nsc + 1)), "paired": "TRUE" if paired else "FALSE",
                   "fixed": "TRUE" if fixed else "FALSE", "more": more}
 
 
 def mc(ctx, names, nv, table, inits, paired, fixed, invariants, properties, label, allow_violation=False, timeout=600,
-       exact_keys=False):
+       exact_keys=False, with_bad=False):
     mod = cred_module("Reload_run", "Reload_mc", table, names, nv, init_defs(names, inits), exact_keys=exact_keys)
     more = "INVARIANTS " + " ".join(invariants) + ("\nPROPERTIES " + " ".join(properties) if properties else "")
-    cfg = cfg_text("Spec", names, nv, len(table["scenarios"]), paired, fixed, more)
+    cfg = cfg_text("Spec", names, nv, len(table["scenarios"]), paired, fixed, more, with_bad)
     return ctx.tlc("Reload_run", "reload_run.cfg", extra_files={"Reload_run.tla": mod, "reload_run.cfg": cfg},
                    coverage=True, timeout=timeout, label=label, allow_violation=allow_violation,
                    workers=os.environ.get("VERIF_TLC_WORKERS", "auto"))
 
 
 def generate(ctx, names, nv, table, inits, paired, genlen, emit_triples, label, mode="mc", sim=None, depth=None, seed=None,
-             timeout=900, out_name=None):
+             timeout=900, out_name=None, exact_keys=False, with_bad=False):
     """TLC enumerates (or samples) behaviours; they are streamed into an NDJSON file.  Returns (path, count, TlcResult)."""
-    mod = cred_module("Reload_run", "Reload_gen", table, names, nv, init_defs(names, inits))
+    mod = cred_module("Reload_run", "Reload_gen", table, names, nv, init_defs(names, inits), exact_keys=exact_keys)
     more = "  GenLen = %d\n  EmitTriples = %s\nINVARIANTS Emit" % (genlen, "TRUE" if emit_triples else "FALSE")
-    cfg = cfg_text("GenSpec", names, nv, len(table["scenarios"]), paired, False, more)
+    cfg = cfg_text("GenSpec", names, nv, len(table["scenarios"]), paired, False, more, with_bad)
     path = ctx.path(out_name or ("cases-%s.ndjson" % label.replace(" ", "_")))
     n = [0]
     seen = set() if mode == "sim" else None
@@ -193,6 +194,10 @@ def core_scenarios(names):
         fill({n1: {"1": [[":", "a"]], "2": [[":", ":"], ["a:", "a"]]}, n2: {"1": [["a:", ":"]], "2": [["a", "a:"]]}}),
         # two pairs of the same namespace (different versions) that concatenate to the same text
         fill({n1: {"1": [["a", "b:a"]], "2": [["a:b", "a"]]}, n2: {"1": [["b", "b"]], "2": [["b", "a"]]}}),
+        # both namespaces hold the same two user names, every pair with its own password
+        fill({n1: {"1": [["a", "a"], ["b", "b"]], "2": [["a", "b"], ["b", "a"]]}, n2: {"1": [["a", ":"], ["b", "a:"]], "2": [["a", "a:b"]]}}),
+        # a pair that can move: it is free again once its owner dropped it or was deleted
+        fill({n1: {"1": [["a", "a"]], "2": [["b", "b"]]}, n2: {"1": [["a", "a"]], "2": [["a", "b"], ["b", "b"]]}}),
         # no ':' anywhere (control: must be clean)
         fill({n1: {"1": [["a", "a"]], "2": [["a", "a"], ["b", "b"]]}, n2: {"1": [["a", "b"]], "2": [["b", "a"]]}}),
     ]
@@ -200,7 +205,10 @@ def core_scenarios(names):
 
 def random_scenario(rng, names, nv=2):
     """Seeded: 1-2 credentials per configuration over ALPHABET x ALPHABET, user names distinct inside a configuration
-    (models.Namespace.Verify demands it), pairs of different namespaces disjoint, user names shared on purpose."""
+    (models.Namespace.Verify demands it), user names shared on purpose.  Two thirds of the scenarios keep the pairs of
+    different namespaces disjoint; in the others a pair may appear in several namespaces (the specification only lets a
+    configuration in when its pairs are free, so pairs move between namespaces over time)."""
+    moving = rng.random() < 0.34
     for _ in range(1000):
         sc = {}
         owner = {}
@@ -212,8 +220,8 @@ def random_scenario(rng, names, nv=2):
                 users = rng.sample(ALPHABET[:4] if rng.random() < 0.6 else ALPHABET, k)
                 cfg = []
                 for u in users:
-                    p = rng.choice(ALPHABET)
-                    if owner.get((u, p), n) != n:
+                    p = rng.choice(ALPHABET[:3] if moving else ALPHABET)
+                    if owner.get((u, p), n) != n and not moving:
                         ok = False
                     owner[(u, p)] = n
                     cfg.append([u, p])
@@ -290,7 +298,7 @@ def concurrent_trials(rng, names, nv, ntrials, max_ops):
         while total < max_ops:
             a = rng.randrange(nadm)
             n = rng.choice(names)
-            kind = rng.choice(["update", "update", "delete", "prepare", "commit"])
+            kind = rng.choice(["update", "update", "delete", "prepare", "commit", "badprepare"])
             if kind == "update" and total + 2 <= max_ops:
                 admins[a] += [{"op": "prepare", "n": n, "v": rng.randint(1, nv)}, {"op": "commit", "n": n, "v": 0}]
                 total += 2
@@ -299,6 +307,9 @@ def concurrent_trials(rng, names, nv, ntrials, max_ops):
                 total += 1
             elif kind == "prepare":
                 admins[a].append({"op": "prepare", "n": n, "v": rng.randint(1, nv)})
+                total += 1
+            elif kind == "badprepare":
+                admins[a].append({"op": "badprepare", "n": n, "v": 0})
                 total += 1
             else:
                 admins[a].append({"op": "commit", "n": n, "v": 0})
